@@ -242,6 +242,83 @@ def unimplemented_arm_dead(prog, fn, node):
     return False
 
 
+def rule_dflt(c, prog):
+    """find_default_property: nearest class in the chain that records a default *for the requested property*"""
+    R = "C16.dflt"
+    c.rule(R, "ReflectionDatabase::find_default_property returns `<class>.default_properties.get(property_name)` of a class found by walking the superclass chain, and every decision that stops or continues the walk is the presence of that very lookup (or the end of the chain) — not some other property of the class")
+    fn = prog.fn("rbx_reflection::database::ReflectionDatabase::<'a>::find_default_property")
+    name_lid = next((p["lid"] for p in fn.params if (p.get("ty") or "").lstrip("&").strip() == "str"), None)
+    if name_lid is None:
+        raise core.AnchorMissing("find_default_property: no &str parameter")
+
+    def is_lookup(e):
+        """`<x>.default_properties.get(property_name)` possibly behind copies / refs"""
+        e = core.strip(e)
+        if e.get("k") == "MethodCall" and e["m"] == "get" and e["args"]:
+            _r, pth = core.place_root(e["recv"])
+            return "default_properties" in pth and any(x.get("k") == "Path" and x.get("lid") == name_lid for x in core.walk(e["args"][0]))
+        if e.get("k") == "MethodCall" and e["m"] in ("copied", "cloned", "as_ref", "is_some", "is_none") and not e["args"]:
+            return is_lookup(e["recv"])
+        return False
+    lets = {st["pat"].get("lid"): st["init"] for st in core.walk_lets(fn.body) if "init" in st and st["pat"].get("k") == "Binding"}
+
+    def about_lookup_or_chain(e, depth=0):
+        """a condition is acceptable when it only inspects the lookup result, the superclass link, or classes.get(..)"""
+        e = core.strip(e)
+        if is_lookup(e):
+            return True
+        if e.get("k") == "Path" and e.get("res") == "local" and e.get("lid") in lets and depth < 4:
+            return about_lookup_or_chain(lets[e["lid"]], depth + 1)
+        if e.get("k") == "Unary" and e["op"] == "!":
+            return about_lookup_or_chain(e["e"], depth)
+        if e.get("k") == "LetExpr":
+            return about_lookup_or_chain(e["init"], depth)
+        t = core.as_try(e)
+        if t is not None:
+            return about_lookup_or_chain(t, depth)
+        _r, pth = core.place_root(e)
+        fields = [p for p in pth if not p.startswith(".") and p != "?"]
+        if "superclass" in fields or "classes" in fields:
+            return True
+        if e.get("k") == "MethodCall" and e["m"] in ("is_some", "is_none", "as_ref", "as_deref") and not e["args"]:
+            return about_lookup_or_chain(e["recv"], depth)
+        return False
+    PRED_ADAPTORS = {"find", "filter", "take_while", "skip_while", "position", "any", "all", "rposition", "rfind", "skip", "take", "nth", "last", "step_by", "rev"}
+    bad = []
+    n_dec = 0
+    has_lookup = any(is_lookup(x) for x in core.walk_fn(fn))
+    for x in core.walk_fn(fn):
+        k = x.get("k")
+        if k == "If":
+            n_dec += 1
+            if not about_lookup_or_chain(x["c"]):
+                bad.append(("if " + core.fingerprint(x["c"], 4), core.loc(x)))
+        elif k == "Match" and x.get("src") == "Normal":
+            n_dec += 1
+            if not about_lookup_or_chain(x["e"]):
+                bad.append(("match " + core.fingerprint(x["e"], 4), core.loc(x)))
+        elif k == "MethodCall" and x["m"] in PRED_ADAPTORS and "Iterator" in (core.callee_generic(x) or ""):
+            n_dec += 1
+            if x["m"] in ("skip", "take", "nth", "last", "step_by", "rev"):
+                bad.append((x["m"] + "(..) on the class chain", core.loc(x)))
+                continue
+            clo = core.strip(x["args"][0]) if x["args"] else {}
+            body = clo.get("body") if clo.get("k") == "Closure" else None
+            while body is not None and core.strip(body).get("k") == "Block" and not core.strip(body)["b"]["stmts"] and "expr" in core.strip(body)["b"]:
+                body = core.strip(body)["b"]["expr"]
+            if body is None or not about_lookup_or_chain(body):
+                bad.append((x["m"] + "(|c| " + (core.fingerprint(body, 4) if body is not None else "?") + ")", core.loc(x)))
+    if not has_lookup:
+        c.violation(R, "dflt|no-lookup", "find_default_property no longer looks `property_name` up in a class's default_properties", fn.sp, instance="dflt:lookup")
+    else:
+        c.ok(R, "dflt:lookup")
+    if bad:
+        c.violation(R, "dflt|decision|" + ";".join(sorted(b[0] for b in bad))[:120], f"find_default_property stops or continues its walk of the superclass chain on {[b[0] for b in bad]} — a decision that is not `does this class record a default for the requested property` (or `is there a superclass`): a default recorded on a superclass is missed when a nearer class records other defaults only, so defaults of 100+ (class, property) pairs of the bundled database resolve to None and the binary writer falls back to a zeroed value", bad[0][1], instance="dflt:decisions")
+    else:
+        c.ok(R, "dflt:decisions")
+    c.floor(R, n_dec, 1, "decisions in find_default_property")
+
+
 def rule_load(c, prog):
     R = "C16.load"
     c.rule(R, "the MessagePack shape read by the analysis (array-encoded structs, field order) matches the ReflectionDatabase ADTs, so a struct change that breaks loading of the bundled file is visible without loading it")
@@ -382,6 +459,7 @@ def run(c, prog):
                               "defaults": sum(len(x.defaults) for x in d.classes.values()), "version": d.version}
     results = rule_data(c, prog, d)
     rule_oblig(c, prog, results)
+    rule_dflt(c, prog)
     rule_load(c, prog)
     rule_closed(c, prog, d)
     rule_xref(c, prog, d)
